@@ -63,6 +63,18 @@ fn check_date(cx: &mut Ctx, o: &Odo, prev: Option<&Odo>, next: Option<&Odo>, epo
             Some(o.doy)
         };
         eq!("Date::day_of_year_no_leap", nl, d.day_of_year_no_leap().map(|x| x as i64));
+        // ... and back: the day of the year names this date again, from anywhere in the same year
+        let ymd0 = |x: Result<Date, jiff::Error>| x.ok().map(|x| (x.year() as i64, x.month() as i64, x.day() as i64));
+        for from in [d, d.first_of_year(), d.last_of_year()] {
+            eq!("DateWith::day_of_year", Some((o.y, o.m, o.d)), ymd0(from.with().day_of_year(o.doy as i16).build()));
+            if let Some(nl) = nl {
+                eq!("DateWith::day_of_year_no_leap", Some((o.y, o.m, o.d)), ymd0(from.with().day_of_year_no_leap(nl as i16).build()));
+            }
+        }
+        if o.doy == 1 {
+            let diy = cal::days_in_year(o.y);
+            eq!("DateWith::day_of_year/invalid", (None::<(i64, i64, i64)>, None::<(i64, i64, i64)>, None::<(i64, i64, i64)>), (ymd0(d.with().day_of_year(0).build()), ymd0(d.with().day_of_year(diy as i16 + 1).build()), ymd0(d.with().day_of_year_no_leap(366).build())));
+        }
         let dim = cal::days_in_month(o.y, o.m);
         eq!("Date::days_in_month", dim, d.days_in_month() as i64);
         eq!("Date::in_leap_year", leap, d.in_leap_year());
